@@ -114,6 +114,9 @@ type expectation struct {
 	frames  []refserver.Frame // non-ack frames received during the call
 	acks    int
 	replied bool
+	// rejectFirst: the first copy of the request is answered with bad_server_salt (the client has to send it again, with
+	// everything that belongs to the call - the decoder hints of a Vector<> result included); the answer goes to the second
+	rejectFirst bool
 }
 
 type mrun struct {
@@ -173,7 +176,17 @@ func (r *mrun) onFrame(f refserver.Frame) {
 		return
 	}
 	e.frames = append(e.frames, f)
-	first := len(e.frames) == 1 && e.reply != nil && f.OpenErr == "" && !f.Plain
+	if e.rejectFirst && len(e.frames) == 1 && e.reply != nil && f.OpenErr == "" && !f.Plain {
+		srv := r.srv
+		r.mu.Unlock()
+		_ = srv.Send(refserver.Msg{MsgID: srv.NextMsgID(false), SeqNo: 0, Body: refserver.BadServerSalt(f.MsgID, f.SeqNo, 48, 0x5a17ed00+int64(len(f.Body)))})
+		return
+	}
+	answerAt := 1
+	if e.rejectFirst {
+		answerAt = 2
+	}
+	first := len(e.frames) == answerAt && e.reply != nil && f.OpenErr == "" && !f.Plain
 	if first {
 		e.replied = true
 	}
@@ -773,6 +786,16 @@ func renderArgs(u *tlh.Universe, args []reflect.Value) string {
 	return strings.Join(s, " ; ")
 }
 
+func rejectedNote(e *expectation, frames []refserver.Frame) string {
+	if !e.rejectFirst {
+		return ""
+	}
+	if len(frames) == 2 && frames[0].OpenErr == "" && frames[1].OpenErr == "" && string(frames[0].Body) == string(frames[1].Body) {
+		return "+rejected-once+resent-equal"
+	}
+	return "+rejected-once+resent-differs"
+}
+
 func (r *mrun) call(mi *methodInfo, p pattern) {
 	id := strconv.Itoa(r.id)
 	r.out.Line("B", id, mi.name, p.mode)
@@ -791,6 +814,8 @@ func (r *mrun) call(mi *methodInfo, p pattern) {
 		r.cases.Line("D", "d"+id, "u", pr.rp.hints, vc.Hex(pr.rp.bytes))
 	}
 	exp := &expectation{active: true, reply: pr.rp.bytes, oddSeq: p.idx%2 == 0, gzip: r.thorough && p.idx%4 == 3}
+	// every Vector<> method once, every 16th call of the others: the server's salt has expired, the first copy is rejected
+	exp.rejectFirst = pr.rp.bytes != nil && ((strings.HasPrefix(pr.rp.kind, "Vec") && p.idx == 0) || r.id%16 == 5)
 	r.mu.Lock()
 	r.exp = exp
 	r.mu.Unlock()
@@ -842,7 +867,7 @@ func (r *mrun) call(mi *methodInfo, p pattern) {
 		fid, fmt.Sprintf("%08x", mi.params.Crc),
 		pr.result, pr.rp.kind, pr.rp.ctor, vc.HexS(pr.rp.kindErr), vc.HexS(pr.rp.genErr),
 		retAbs, pr.rp.sentAbs, vc.Hex(pr.rp.bytes), innerName,
-		vc.HexS(renderArgs(r.u, pr.args)), vc.HexS(detail), map[bool]string{true: "gzip", false: "plain"}[exp.gzip])
+		vc.HexS(renderArgs(r.u, pr.args)), vc.HexS(detail), map[bool]string{true: "gzip", false: "plain"}[exp.gzip]+rejectedNote(exp, frames))
 	if status != "ok" {
 		// the client may be wedged: continue on a fresh server and client
 		r.restart()
